@@ -61,9 +61,10 @@ func (mt *memtable) recover() int64 {
 		mt.logger.Panicf("read dir %v failed: %v", mt.dir, err)
 	}
 
+	// every wal file except the one of this memtable holds entries which are not flushed yet
 	var walFiles []string
 	for _, file := range files {
-		if !file.IsDir() && path.Ext(file.Name()) == ".log" && wal.CompareVersion(wal.ParseVersion(file.Name()), mt.wal.Version()) < 0 {
+		if !file.IsDir() && path.Ext(file.Name()) == ".log" && wal.CompareVersion(wal.ParseVersion(file.Name()), mt.wal.Version()) != 0 {
 			walFiles = append(walFiles, path.Join(mt.dir, file.Name()))
 		}
 	}
